@@ -248,13 +248,13 @@ PROPS = {
                      "&[u8] lengths are <= isize::MAX, so `len + 4` in an error value cannot overflow"],
     ),
     "C04": dict(
-        lean_modules=["AlphaG.Props.C04", "AlphaG.Props.C04Complete"],
+        lean_modules=["AlphaG.Props.C04", "AlphaG.Props.C04Complete", "AlphaG.Props.C04Wire"],
         required_theorems=["AlphaG.Pwb." + t for t in [
             "reassemble_ok_iff", "reassemble_complete", "reassemble_of_sorted_perm", "bound_of_valid", "reassemble_sort_irrelevant", "reassemble_perm", "reassemble_perm_eq", "reassemble_ok_eq_direct",
             "reassemble_fails_if_missing_id", "reassemble_fails_if_duplicated_id", "reassemble_fails_if_two_boards",
             "reassemble_fails_if_two_chips", "reassemble_fails_if_eom_absent_on_last",
             "reassemble_fails_if_eom_on_earlier", "reassemble_fails_if_nonfinal_size_differs", "reassemble_total",
-            "sortById_spec"]],
+            "sortById_spec"]] + ["AlphaG.wire_transport", "AlphaG.decodeAll_encode", "AlphaG.toChunkV_valid"],
         harness=[("c04", ["dev", "release"])],
         level_text="Lean theorems for chunk lists of any length: the outcome is the same for every permutation "
                    "(reassemble_perm_eq) and for every sorted permutation a sort could return (reassemble_sort_irrelevant), "
